@@ -784,4 +784,89 @@ example :
     (groupsCallee 20 demoProg "main" c (setIn d s)).2 = .ok := by
   refine ⟨by decide +kernel, ⟨rfl, rfl, rfl, rfl, rfl⟩, rfl, by decide +kernel, by decide +kernel⟩
 
+
+/-! ## group names given as a sequence of any kind -/
+
+theorem strList_of_names (names : List String) : strList? (.list (names.map .str)) = some names := by
+  unfold strList?
+  simp [List.filterMap_map, Function.comp_def]
+
+/-- the `groups` entry of the MAP form names the same groups, in the same order, whether it is a list or
+    a TUPLE of names (what `groups: !py ('prep', 'build_' + i)` evaluates to); one name alone is that one
+    group (`isinstance(groups, str)`) -/
+theorem groupNames_any_sequence (names : List String) (n : String) :
+    groupNames? (.tuple (names.map .str)) = some names ∧
+    groupNames? (.list (names.map .str)) = some names ∧
+    groupNames? (.str n) = some [n] :=
+  ⟨strList_of_names names, strList_of_names names, rfl⟩
+
+/-- **The map form with a tuple of names is the map form with the list of those names**: for every
+    configuration mapping `kvs` (whatever its `success` / `failure` / other entries), instruction key and
+    original configuration, replacing a `groups` tuple by the list of the same items gives the same
+    instruction - the same groups, in the same order, the same handlers - or the same rejection. -/
+theorem instruction_map_tuple_is_list (kvs kvs' : List (Val × Val)) (xs : List Val) (key : String) (original : Val)
+    (hg : dictGet? kvs (.str "groups") = some (.tuple xs)) (hg' : dictGet? kvs' (.str "groups") = some (.list xs))
+    (hs : dictGet? kvs (.str "success") = dictGet? kvs' (.str "success"))
+    (hf : dictGet? kvs (.str "failure") = dictGet? kvs' (.str "failure")) :
+    instructionFromVal (.dict kvs) key original = instructionFromVal (.dict kvs') key original := by
+  unfold instructionFromVal
+  simp only [hg, hg', hs, hf]
+  rfl
+
+/-- **… and it names exactly those groups**: `{groups: (n₁, …, nₖ), success: su, failure: fa}` (k ≥ 1) is
+    the instruction to run `n₁ … nₖ` in that order with those handlers. -/
+theorem instruction_map_tuple_names (names : List String) (hne : names ≠ []) (su fa : Option String)
+    (kvs : List (Val × Val)) (key : String) (original : Val)
+    (hg : dictGet? kvs (.str "groups") = some (.tuple (names.map .str)))
+    (hs : dictGet? kvs (.str "success") = su.map .str) (hf : dictGet? kvs (.str "failure") = fa.map .str) :
+    instructionFromVal (.dict kvs) key original =
+      .ok { groups := names, success := su, failure := fa, key, original } := by
+  have ht : (Val.tuple (names.map .str)).truthy = true := by
+    cases names with
+    | nil => exact absurd rfl hne
+    | cons n rest => rfl
+  unfold instructionFromVal
+  simp only [hg, ht, (groupNames_any_sequence names "").1, hs, hf, Bool.not_true, Bool.false_eq_true, if_false]
+  cases su <;> cases fa <;> rfl
+
+/-- a call step in the map form whose `groups` is the tuple `('sg2',)` held in the context: the step hands
+    over to exactly the group `sg2` (hypotheses of `instruction_map_tuple_names` satisfiable: k = 1) -/
+example :
+    let s : St := { ctx := [("call", .dict [(.str "groups", .str "{names}"), (.str "success", .str "ok")]),
+                            ("names", .tuple [.str "sg2"])] }
+    (cofStep "call" true s).2 =
+      .call { groups := ["sg2"], success := some "ok", failure := none, key := "call",
+              original := .dict [(.str "groups", .str "{names}"), (.str "success", .str "ok")] } := by
+  decide +kernel
+
+
+/-! ## the caller's configuration is restored for EVERY caller shape -/
+
+/-- **A calling step without any loop decorator** (frame `{}`: no while, no foreach, no retry - a bare
+    `- pypyr.steps.call` whose configuration lives in the context rather than in `in`) gets its `call` /
+    `switch` configuration back like any other: whatever the called groups did to the key (a nested call
+    with `in: {call: …}` removes it when it completes; a step overwrites it; the context is cleared), the
+    context holds the caller's original configuration when `invoke_step` returns - so the next step, or
+    the same step used a second time, finds it. Instance of `call_step_restores` (which is for every frame). -/
+theorem undecorated_caller_config_restored (body : Body) (hbody : body = cofStep "call" true ∨ body = switchStep)
+    (callee : CofCfg → Body) (s s₁ : St) (c : CofCfg) (hb : body s = (s₁, .call c))
+    (hco : c.original.truthy = true) :
+    Ctx.get? (invokeStep {} body callee s).1.ctx c.key = Ctx.get? s.ctx c.key ∧
+    Ctx.get? s.ctx c.key = some c.original :=
+  let h := call_step_restores {} body hbody callee s s₁ c hb hco
+  ⟨h.2.2.2.2.1, h.2.2.2.2.2⟩
+
+/-- two bare call steps in a row on the configuration `call: g` kept in the context; `g` contains a call
+    step with `in: {call: h}`, whose completion REMOVES `call`: both bare steps run `g` (tags G, H twice),
+    the run succeeds, `call` is `g` at the end. -/
+example :
+    let bare : StepDef := { name := some "pypyr.steps.call", simple := true }
+    let prog : Program := ⟨[{ name := "main", groups := [
+      ("steps", .steps [bare, bare, probe "Z"]),
+      ("g", .steps [probe "G", { name := some "pypyr.steps.call", inArgs := some [("call", .str "h")] }]),
+      ("h", .steps [probe "H"])] }]⟩
+    let r := runRoot 40 prog { name := "main" } { ctx := [("call", .str "g")] }
+    r.2 = .ok ∧ r.1.trace.map (·.tag) = ["G", "H", "G", "H", "Z"] ∧ Ctx.get? r.1.ctx "call" = some (.str "g") := by
+  decide +kernel
+
 end Pypyr.C03
